@@ -161,6 +161,116 @@ func checkC13(ctx *Ctx) {
 		}
 	})
 	ctx.Count("programs_random", int64(n))
+	c13AliasShapes(ctx)
+}
+
+// c13AliasShapes: the move / store commands on prepared shapes (sources built element by element, as one
+// block, or grown and then shortened, so that their backing storage has spare room; destinations absent,
+// emptied by pops or removals, short, or longer), followed by a series of writes to the source and to the
+// destination: after every write only the key written to may differ.
+func c13AliasShapes(ctx *Ctx) {
+	type shape struct {
+		name string
+		cmds [][]string
+	}
+	srcShapes := []shape{
+		{"block", [][]string{{"RPUSH", "src", "a", "b", "c"}}},
+		{"one-by-one", [][]string{{"RPUSH", "src", "a"}, {"RPUSH", "src", "b"}, {"RPUSH", "src", "c"}, {"RPUSH", "src", "d"}, {"RPUSH", "src", "e"}}},
+		{"grown-then-popped", [][]string{{"RPUSH", "src", "a", "b", "c", "d", "e", "f", "g", "h"}, {"RPOP", "src", "5"}}},
+		{"single", [][]string{{"RPUSH", "src", "a"}}},
+	}
+	dstShapes := []shape{
+		{"absent", nil},
+		{"emptied-by-pop", [][]string{{"RPUSH", "dst", "x", "y"}, {"LPOP", "dst", "2"}}},
+		{"emptied-by-lrem", [][]string{{"RPUSH", "dst", "x", "x"}, {"LREM", "dst", "0", "x"}}},
+		{"one", [][]string{{"RPUSH", "dst", "x"}}},
+		{"grown", [][]string{{"RPUSH", "dst", "x"}, {"RPUSH", "dst", "y"}, {"RPUSH", "dst", "z"}}},
+	}
+	muts := [][]string{{"RPUSH", "src", "S1"}, {"RPUSH", "dst", "D1"}, {"LPUSH", "src", "S2"}, {"LSET", "src", "0", "S3"}, {"LSET", "dst", "0", "D2"},
+		{"RPUSH", "src", "S4", "S5", "S6"}, {"LPUSH", "dst", "D3"}, {"LSET", "src", "-1", "S7"}, {"RPUSH", "dst", "D4", "D5"}, {"LPOP", "src"}, {"RPUSH", "src", "S8"}}
+	run := func(lane string, prep [][]string, op []string, muts [][]string) {
+		in := lightInst()
+		defer in.Close()
+		var trace []Step
+		for _, c := range prep {
+			in.Do(c...)
+			trace = append(trace, Step{Argv: c})
+		}
+		in.Do(op...)
+		trace = append(trace, Step{Argv: op})
+		for _, m := range muts {
+			now := in.Clk.NowNs()
+			before := CanonDump(in.S.VerifDump(), now)
+			in.Do(m...)
+			trace = append(trace, Step{Argv: m})
+			after := CanonDump(in.S.VerifDump(), now)
+			for _, mm := range []map[int]map[string]string{before, after} {
+				for _, db := range mm {
+					delete(db, m[1])
+				}
+			}
+			ctx.Eval(1)
+			if d := model.DiffCanon(before, after); d != "" {
+				ctx.Violate(Violation{Kind: "alias", Lane: lane,
+					What: fmt.Sprintf("after %s, writing to %s with %s changed another key (shared structure): %s", Step{Argv: op}.String(), m[1], Step{Argv: m}.String(), d),
+					Case: map[string]interface{}{"program": trace, "program_text": progStrings(trace)}, Key: "c13|alias-shapes|" + strings.ToLower(op[0])})
+				return
+			}
+		}
+	}
+	n := 0
+	for _, ss := range srcShapes {
+		for _, ds := range dstShapes {
+			for _, from := range []string{"LEFT", "RIGHT"} {
+				for _, to := range []string{"LEFT", "RIGHT"} {
+					prep := append(append([][]string{}, ss.cmds...), ds.cmds...)
+					run("alias-shapes", prep, []string{"LMOVE", "src", "dst", from, to}, muts)
+					// and the same list moved onto itself (rotation), then written to
+					run("alias-shapes", ss.cmds, []string{"LMOVE", "src", "src", from, to}, [][]string{{"RPUSH", "src", "S1"}, {"LSET", "src", "0", "S2"}})
+					ctx.Class(fmt.Sprintf("alias-shapes|lmove|%s|%s|%s|%s", ss.name, ds.name, from, to))
+					n++
+				}
+			}
+			// RENAME of a list onto the destination shape, then writes to both names
+			prep := append(append([][]string{}, ss.cmds...), ds.cmds...)
+			run("alias-shapes", prep, []string{"RENAME", "src", "dst"}, [][]string{{"RPUSH", "dst", "D1"}, {"RPUSH", "src", "S1"}, {"LSET", "dst", "0", "D2"}, {"RPUSH", "src", "S2"}})
+			ctx.Class(fmt.Sprintf("alias-shapes|rename|%s|%s", ss.name, ds.name))
+		}
+	}
+	// sets and sorted sets: one or several operands, destination absent / existing / equal to a source
+	setPreps := [][][]string{
+		{{"SADD", "src", "a", "b", "c"}},
+		{{"SADD", "src", "a", "b", "c"}, {"SADD", "s2", "b", "c", "d"}},
+		{{"SADD", "src", "a", "b", "c"}, {"SADD", "s2", "b", "c", "d"}, {"SADD", "dst", "old"}},
+	}
+	setOps := [][]string{{"SUNIONSTORE", "dst", "src"}, {"SUNIONSTORE", "dst", "src", "s2"}, {"SINTERSTORE", "dst", "src"}, {"SINTERSTORE", "dst", "src", "s2"},
+		{"SDIFFSTORE", "dst", "src"}, {"SDIFFSTORE", "dst", "src", "s2"}, {"SDIFFSTORE", "dst", "src", "nosuch"}, {"SUNIONSTORE", "dst", "src", "nosuch"}, {"SMOVE", "src", "dst", "a"},
+		{"SUNIONSTORE", "src", "src", "s2"}, {"SINTERSTORE", "src", "src"}}
+	setMuts := [][]string{{"SADD", "dst", "D1"}, {"SADD", "src", "S1"}, {"SREM", "dst", "b"}, {"SREM", "src", "c"}, {"SADD", "s2", "T1"}, {"SPOP", "dst"}, {"SADD", "src", "S2"}}
+	for _, p := range setPreps {
+		for _, op := range setOps {
+			run("alias-shapes", p, op, setMuts)
+			ctx.Class(fmt.Sprintf("alias-shapes|%s|operands=%d|prep=%d", strings.ToLower(op[0]), len(op)-2, len(p)))
+			n++
+		}
+	}
+	zPreps := [][][]string{
+		{{"ZADD", "src", "1", "a", "2", "b", "3", "c"}},
+		{{"ZADD", "src", "1", "a", "2", "b", "3", "c"}, {"ZADD", "s2", "5", "b", "6", "d"}},
+		{{"ZADD", "src", "1", "a", "2", "b", "3", "c"}, {"ZADD", "s2", "5", "b", "6", "d"}, {"ZADD", "dst", "9", "old"}},
+	}
+	zOps := [][]string{{"ZUNIONSTORE", "dst", "src"}, {"ZUNIONSTORE", "dst", "src", "s2"}, {"ZINTERSTORE", "dst", "src"}, {"ZINTERSTORE", "dst", "src", "s2"},
+		{"ZDIFFSTORE", "dst", "src"}, {"ZDIFFSTORE", "dst", "src", "s2"}, {"ZDIFFSTORE", "dst", "src", "nosuch"}, {"ZRANGESTORE", "dst", "src", "0", "10"},
+		{"ZRANGESTORE", "dst", "src", "0", "10", "REV"}, {"ZUNIONSTORE", "dst", "src", "nosuch", "WEIGHTS", "2", "3"}}
+	zMuts := [][]string{{"ZADD", "dst", "7", "D1"}, {"ZADD", "src", "8", "S1"}, {"ZINCRBY", "dst", "1", "b"}, {"ZINCRBY", "src", "1", "c"}, {"ZREM", "dst", "a"}, {"ZADD", "s2", "1", "T1"}, {"ZPOPMIN", "src"}, {"ZADD", "dst", "0", "D2"}}
+	for _, p := range zPreps {
+		for _, op := range zOps {
+			run("alias-shapes", p, op, zMuts)
+			ctx.Class(fmt.Sprintf("alias-shapes|%s|operands=%d|prep=%d", strings.ToLower(op[0]), len(op)-2, len(p)))
+			n++
+		}
+	}
+	ctx.Count("programs_alias_shapes", int64(n))
 }
 
 var zsetAlphabetHook = func() [][]string { return nil }
